@@ -122,6 +122,9 @@ def first_match(keys, key, ci):
 
 def alphabet(n, keys):
     ops = [["append", nm] for nm in NAMES]
+    # the LASFile-level entry points for curves (append_curve / insert_curve); on other sections the same as append / insert
+    ops += [["las_append", nm] for nm in ("A", "A:1", "", "a")]
+    ops += [["las_insert", 0, "A:1"], ["las_insert", 0, "A"]]
     for pos in sorted({0, n // 2, n}):
         for nm in ("A", "", "A:1", "a"):
             ops.append(["insert", pos, nm])
@@ -157,6 +160,20 @@ def apply(section, factory, originals, op, step, ci):
         section.insert(op[1], new_item(factory, op[2], step))
         o.insert(op[1], op[2])
         inserted = op[2]
+    elif kind in ("las_append", "las_insert"):
+        las = getattr(section, "_verif_owner", None)
+        nm = op[-1]
+        pos = len(o) if kind == "las_append" else op[1]
+        if las is not None and section is las.curves:
+            it = new_item(CurveItem, nm, step)
+            if kind == "las_append":
+                las.append_curve_item(it)
+            else:
+                las.insert_curve_item(pos, it)
+        else:
+            section.insert(pos, new_item(factory, nm, step))
+        o.insert(pos, nm)
+        inserted = nm
     elif kind == "del_ix":
         del section[op[1]]
         o.pop(op[1])
@@ -327,6 +344,11 @@ def _roundtrip_check(root, section, las, originals, ci, empty_values):
 
 def build(root, history):
     section, las, factory = make_root(root)
+    if las is not None and section is las.curves:
+        try:
+            object.__setattr__(section, "_verif_owner", las)
+        except Exception:
+            pass
     ci = bool(section.mnemonic_transforms)
     originals = [i.original_mnemonic for i in section]
     for step, op in enumerate(history):
@@ -497,6 +519,16 @@ def check_file_case(names, surplus, case, engine):
                 b2 = invariants(sec1, l1, [i.original_mnemonic for i in sec1], ci)
                 if b2:
                     bad.extend(b2)
+                    break
+                # numbering by reading order, unique names untouched (under the comparison that the read option implies)
+                o_all = [i.original_mnemonic for i in sec1]
+                want_s = []
+                for p_, n in enumerate(o_all):
+                    u = useful(n)
+                    grp = [q for q, m in enumerate(o_all) if cmp(ci, useful(m), u)]
+                    want_s.append(u if len(grp) == 1 else "%s:%d" % (u, grp.index(p_) + 1))
+                if [i.mnemonic for i in sec1] != want_s:
+                    bad.append(("I4-numbering-after-read:" + secname, want_s, [i.mnemonic for i in sec1]))
                     break
                 buf = io.StringIO()
                 l1.write(buf, version=2.0)
